@@ -2225,3 +2225,35 @@ fire("c07-negative-literal-fast-path", ["C07"], PF,
      "            else:\n"
      "                left_exp = -self.parse_expression(pstate, _PREC_UNARY)",
      "T/pygrammar/-2**2")
+
+_IMP_HELPERS = (
+    "def _bitwise_or(x, y):\n    return p.BitwiseOr((x, y))\n\n\n"
+    "def _bitwise_xor(x, y):\n    return p.BitwiseXor((x, y))\n\n\n"
+    "def _bitwise_and(x, y):\n    return p.BitwiseAnd((x, y))\n")
+_IMP_FACTORY = (
+    "def _binary_as_nary(node_class):\n"
+    "    def build(x, y):\n"
+    "        return node_class((x, y))\n\n"
+    "    return build\n")
+_IMP_ENTRIES = (
+    "            ast.BitOr: _bitwise_or,\n"
+    "            ast.BitXor: _bitwise_xor,\n"
+    "            ast.BitAnd: _bitwise_and,\n")
+silent_multi("c07-importer-factory-refactor", ["C07", "C13"], IA, [
+    (_IMP_HELPERS, _IMP_FACTORY),
+    (_IMP_ENTRIES,
+     "            ast.BitOr: _binary_as_nary(p.BitwiseOr),\n"
+     "            ast.BitXor: _binary_as_nary(p.BitwiseXor),\n"
+     "            ast.BitAnd: _binary_as_nary(p.BitwiseAnd),\n")])
+fire_multi("c07-importer-factory-stale-xor", ["C07", "C13"], IA, [
+    (_IMP_HELPERS, _IMP_FACTORY),
+    (_IMP_ENTRIES,
+     "            ast.BitOr: _binary_as_nary(p.BitwiseOr),\n"
+     "            ast.BitXor: _binary_as_nary(p.BitwiseOr),\n"
+     "            ast.BitAnd: _binary_as_nary(p.BitwiseAnd),\n")],
+    "T/importer/bin_op_map/BitXor")
+silent_multi("c07-importer-lambda-entries", ["C07", "C13"], IA, [
+    (_IMP_ENTRIES,
+     "            ast.BitOr: lambda x, y: p.BitwiseOr((x, y)),\n"
+     "            ast.BitXor: lambda x, y: p.BitwiseXor((x, y)),\n"
+     "            ast.BitAnd: lambda x, y: p.BitwiseAnd((x, y)),\n")])
